@@ -488,6 +488,15 @@ func optionFanOutOf(c *core.Ctx, pkgS string, fn *ssa.Function, last *ssa.Parame
 						why = append(why, "a package function is handed another option object than the one the options were applied to")
 					}
 				}
+				// the configured object handed on by value: a copy taken after the options were applied
+				if types.Identical(a.Type(), core.Deref(obj.Type())) && !types.Identical(a.Type(), obj.Type()) {
+					ld, isLd := core.Strip(a).(*ssa.UnOp)
+					if isLd && ld.Op == token.MUL && resolvesTo(ld.X, obj) && skip != nil && !core.Reachable(core.After(ld), skip) {
+						used++
+					} else {
+						why = append(why, "a package function is handed a copy of the option object that was not taken after the options were applied to it")
+					}
+				}
 			}
 		})
 		if used == 0 {
